@@ -7,9 +7,10 @@ namespace verif {
 inline long tol(const std::string& s) {
     return std::stol(s);
 }
-inline type_id toid(const std::string& s) {
+inline type_id rawid(const std::string& s) {
     return static_cast<type_id>(std::stoull(s));
 }
+#define toid(s) (IdMap<Policy>::in(rawid(s)))
 
 template<class Policy>
 Engine<Policy>::Engine(const char* name) : name_(name) {
@@ -63,15 +64,18 @@ void Engine<Policy>::report_error(const error_type& e, const char* prefix) {
     if (auto r = std::get_if<resolution_error>(&e)) {
         std::vector<type_id> types(
             r->types, r->types + (std::min)(r->arity, resolution_error::max_types));
+        for (auto& t : types) {
+            t = IdMap<Policy>::out(t);
+        }
         os << "raised resolution status="
            << (r->status == resolution_error::no_definition ? "ni" : "amb")
            << " arity=" << r->arity << " types=" << list(types);
     } else if (auto u = std::get_if<unknown_class_error>(&e)) {
-        os << "raised unknown_class " << u->type;
+        os << "raised unknown_class " << IdMap<Policy>::out(u->type);
     } else if (auto h = std::get_if<hash_search_error>(&e)) {
         os << "raised hash_search attempts=" << h->attempts << " buckets=" << h->buckets;
     } else if (auto m = std::get_if<method_table_error>(&e)) {
-        os << "raised method_table " << m->type;
+        os << "raised method_table " << IdMap<Policy>::out(m->type);
     } else if (auto s = std::get_if<static_slot_error>(&e)) {
         os << "raised static_slot";
         (void)s;
@@ -254,6 +258,9 @@ void Engine<Policy>::do_dump() {
         for (auto& c : comp.classes) {
             std::ostringstream os;
             std::vector<type_id> ids(c.type_ids.begin(), c.type_ids.end());
+            for (auto& t : ids) {
+                t = IdMap<Policy>::out(t);
+            }
             os << "class " << i++ << " ids=" << list(ids) << " abs=" << (c.is_abstract ? 1 : 0)
                << " tb=" << list(idxs(c.transitive_bases, true))
                << " direct=" << list(idxs(c.direct_bases, false))
@@ -381,7 +388,7 @@ void Engine<Policy>::do_dump() {
                 if constexpr (vptrs_is_map<Policy>::value) {
                     auto it = Policy::vptrs.find(id);
                     if (it != Policy::vptrs.end()) {
-                        entries[id] = it->second - base;
+                        entries[IdMap<Policy>::out(id)] = it->second - base;
                     }
                 } else {
                     std::size_t index = id;
@@ -492,6 +499,243 @@ void Engine<Policy>::do_call(const std::vector<std::string>& tok, bool follow_ne
         os << " BADARGS";
     }
     emit(os.str());
+}
+
+// ---------------------------------------------------------------------------------------------
+// generator ops (policies whose ids are std::type_info pointers)
+
+template<class Policy>
+void Engine<Policy>::do_offsets() {
+    if constexpr (!IdMap<Policy>::gen) {
+        emit("!harness not a generator policy");
+    } else {
+        std::ostringstream os;
+        generator().template write_static_offsets<Policy>(os);
+        std::istringstream is(os.str());
+        std::string line;
+        auto it = Policy::methods.begin();
+        while (std::getline(is, line)) {
+            // replace the demangled method name by M<key>
+            long key = -1;
+            if (it != Policy::methods.end()) {
+                for (auto& [k, r] : methods_) {
+                    if (r.slot->info == &*it) {
+                        key = k;
+                    }
+                }
+                ++it;
+            }
+            auto a = line.find("static_offsets<");
+            auto b = line.find("> {static constexpr");
+            if (a != std::string::npos && b != std::string::npos) {
+                line = line.substr(0, a + 15) + "M" + std::to_string(key) + line.substr(b);
+            }
+            emit("offsets " + line);
+        }
+    }
+}
+
+struct DynData {
+    struct {
+        uint16_t* slots;
+        uint16_t* vtbls;
+    } encoded;
+    std::uintptr_t* vtbls;
+    std::uintptr_t* dtbls;
+};
+
+struct ParsedEncoding {
+    long H = 0, S = 0, E = 0, D = 0, DT = 0;
+    std::vector<unsigned long> slots, vt, dt;
+    bool ok = false;
+};
+
+inline ParsedEncoding parse_encoding(const std::string& text) {
+    ParsedEncoding p;
+    auto num_after = [&](const char* what, std::size_t from, long& out) -> std::size_t {
+        auto pos = text.find(what, from);
+        if (pos == std::string::npos) {
+            return pos;
+        }
+        pos += std::strlen(what);
+        out = std::strtol(text.c_str() + pos, nullptr, 10);
+        return pos;
+    };
+    std::size_t pos = 0;
+    pos = num_after("headroom[", pos, p.H);
+    if (pos == std::string::npos) return p;
+    pos = num_after("uint16_t slots[", pos, p.S);
+    if (pos == std::string::npos) return p;
+    pos = num_after("uint16_t vtbls[", pos, p.E);
+    if (pos == std::string::npos) return p;
+    pos = num_after("std::uintptr_t vtbls[", pos, p.D);
+    if (pos == std::string::npos) return p;
+    pos = num_after("std::uintptr_t dtbls[", pos, p.DT);
+    if (pos == std::string::npos) return p;
+    auto start = text.find("yomm2_dispatch_data = {");
+    if (start == std::string::npos) return p;
+    // strip comments
+    std::string body;
+    for (std::size_t i = start; i < text.size(); ++i) {
+        if (text[i] == '/' && i + 1 < text.size() && text[i + 1] == '/') {
+            while (i < text.size() && text[i] != '\n') ++i;
+        } else {
+            body += text[i];
+        }
+    }
+    auto parse_list = [&](std::size_t& at) {
+        std::vector<unsigned long> v;
+        while (at < body.size() && body[at] != '}') {
+            if (std::isalnum((unsigned char)body[at])) {
+                std::size_t e = at;
+                while (e < body.size() && std::isalnum((unsigned char)body[e])) ++e;
+                v.push_back(std::stoul(body.substr(at, e - at), nullptr, 0));
+                at = e;
+            } else {
+                ++at;
+            }
+        }
+        return v;
+    };
+    std::size_t p1 = body.find("{}, {");
+    if (p1 == std::string::npos) return p;
+    p1 += 5;
+    p.slots = parse_list(p1);
+    std::size_t p2 = body.find('{', p1);
+    if (p2 == std::string::npos) return p;
+    ++p2;
+    p.vt = parse_list(p2);
+    std::size_t close = body.find("} } }", p2);
+    if (close == std::string::npos) return p;
+    std::size_t p3 = body.find('{', close);
+    if (p3 == std::string::npos) return p;
+    ++p3;
+    p.dt = parse_list(p3);
+    p.ok = true;
+    return p;
+}
+
+template<class Policy>
+void Engine<Policy>::do_encode() {
+    if constexpr (!IdMap<Policy>::gen) {
+        emit("!harness not a generator policy");
+    } else {
+        if (!comp_) {
+            emit("skipped: no completed update");
+            return;
+        }
+        std::ostringstream os;
+        generator::encode_dispatch_data(*comp_, "P", os);
+        last_encoded_ = os.str();
+        auto p = parse_encoding(last_encoded_);
+        if (!p.ok) {
+            emit("encoded unparsable");
+            return;
+        }
+        std::ostringstream l;
+        l << "encoded headroom=" << p.H << " slots=" << p.S << " vtbls=" << p.E << " decoded=" << p.D
+          << " dtbls=" << p.DT;
+        emit(l.str());
+        emit("enc-slots " + list(p.slots));
+        emit("enc-vtbls " + list(p.vt));
+        emit("enc-dtbls " + list(p.dt));
+    }
+}
+
+template<class Policy>
+void Engine<Policy>::do_decode() {
+    if constexpr (!IdMap<Policy>::gen) {
+        emit("!harness not a generator policy");
+    } else {
+        auto p = parse_encoding(last_encoded_);
+        if (!p.ok || !comp_) {
+            emit("skipped: nothing encoded");
+            return;
+        }
+        if (p.H < 0 || (long)p.slots.size() > p.S || (long)p.vt.size() > p.E || (long)p.dt.size() > p.DT) {
+            emit("decode rejected: the emitted text is not valid C++ (negative extent or excess initialisers)");
+            return;
+        }
+        // exactly the layout of the emitted struct, in its own heap block (ASan guards both ends)
+        std::size_t enc_bytes = (p.H + p.S + p.E) * 2, dec_bytes = p.D * 8;
+        std::size_t un = (std::max)(enc_bytes, dec_bytes);
+        un = (un + 7) / 8 * 8;
+        std::size_t total = un + p.DT * 8;
+        char* buf = static_cast<char*>(std::malloc(total ? total : 1));
+        std::memset(buf, 0, total);
+        DynData dd;
+        dd.encoded.slots = reinterpret_cast<uint16_t*>(buf + p.H * 2);
+        dd.encoded.vtbls = dd.encoded.slots + p.S;
+        dd.vtbls = reinterpret_cast<std::uintptr_t*>(buf);
+        dd.dtbls = reinterpret_cast<std::uintptr_t*>(buf + un);
+        for (std::size_t i = 0; i < p.slots.size(); ++i) dd.encoded.slots[i] = (uint16_t)p.slots[i];
+        for (std::size_t i = 0; i < p.vt.size(); ++i) dd.encoded.vtbls[i] = (uint16_t)p.vt[i];
+        for (std::size_t i = 0; i < p.dt.size(); ++i) dd.dtbls[i] = p.dt[i];
+        // a fresh process: nothing installed yet
+        for (auto& ci : Policy::classes) {
+            *ci.static_vptr = nullptr;
+        }
+        Policy::dispatch_data.clear();
+        Policy::vptrs.clear();
+        for (auto& m : Policy::methods) {
+            for (long i = 0; i < 2 * m.arity() - 1; ++i) {
+                m.slots_strides_ptr[i] = 9999;
+            }
+        }
+        bool ok = guarded(*this, "decode ", [&] { decode_dispatch_data<Policy>(dd); });
+        if (!ok) {
+            return;
+        }
+        emit("decode ok");
+        // what the decoder left: per class record the v-table pointer, then the decoded words
+        for (auto& ci : Policy::classes) {
+            std::ostringstream os;
+            os << "dclass " << IdMap<Policy>::out(ci.type) << " vp=" << (*ci.static_vptr - dd.vtbls);
+            emit(os.str());
+        }
+        auto word = [&](std::uintptr_t w) -> std::string {
+            auto f = describe_fn(reinterpret_cast<void*>(w));
+            if (!f.empty()) {
+                return f;
+            }
+            auto b = reinterpret_cast<std::uintptr_t>(dd.dtbls);
+            if (w >= b && w < b + p.DT * 8 && (w - b) % 8 == 0) {
+                return "T" + std::to_string((w - b) / 8);
+            }
+            return "N" + std::to_string(w);
+        };
+        {
+            std::ostringstream os;
+            os << "dvtbls [";
+            const char* sep = "";
+            for (long i = 0; i < p.D; ++i) {
+                os << sep << word(dd.vtbls[i]);
+                sep = ",";
+            }
+            os << "]";
+            emit(os.str());
+        }
+        {
+            std::ostringstream os;
+            os << "ddtbls [";
+            const char* sep = "";
+            for (long i = 0; i < p.DT; ++i) {
+                os << sep << word(dd.dtbls[i]);
+                sep = ",";
+            }
+            os << "]";
+            emit(os.str());
+        }
+        for (auto& m : Policy::methods) {
+            for (auto& [k, r] : methods_) {
+                if (r.slot->info == &m) {
+                    std::vector<std::size_t> ss(m.slots_strides_ptr, m.slots_strides_ptr + 2 * m.arity() - 1);
+                    emit("dss " + std::to_string(k) + " " + list(ss));
+                }
+            }
+        }
+        // the buffer stays alive: the decoded tables are now the installed ones
+    }
 }
 
 template<class Policy>
@@ -691,6 +935,12 @@ void Engine<Policy>::op(const std::vector<std::string>& tok) {
         do_update();
     } else if (cmd == "dump") {
         do_dump();
+    } else if (cmd == "offsets") {
+        do_offsets();
+    } else if (cmd == "encode") {
+        do_encode();
+    } else if (cmd == "decode") {
+        do_decode();
     } else if (cmd == "call" || cmd == "vcall") {
         do_call(tok, false, 0);
     } else if (cmd == "callfinal") {
